@@ -214,4 +214,15 @@ theorem walkBack_last (g : Gen) (fuel fp : Nat) (h : (g.get fp).isSome) :
       simp only [hp]
       simp
 
+theorem lastState_eq_of_states {p p' : Path σ α} (h : intoStates p' = intoStates p) :
+    lastState p' = lastState p := by
+  have e : ∀ q : Path σ α, lastState q = (intoStates q).getLast? := by
+    intro q; simp [lastState, intoStates, List.getLast?_map]
+  rw [e, e, h]
+
+theorem encode_getLast (key : σ → Nat) (p : Path σ α) :
+    (encode key p).getLast? = (lastState p).map key := by
+  simp only [encode, lastState, List.getLast?_map, Option.map_map]
+  rfl
+
 end SR.PathApi
